@@ -113,11 +113,158 @@ def gen_cases(units, tier):
     return cases, pairs
 
 
+
+# ---------------------------------------------------------------------------------------------
+# compound units: products / quotients of up to four single-unit numbers, then an observation
+#   tree: ("N", lit, unit) | ("B", op, a, b)     final: print | inspect | unit | lt | eq | compatible
+# ---------------------------------------------------------------------------------------------
+
+def c_rpn(t):
+    if t[0] == "N":
+        return [f"N{t[1]}:{t[2]}"]
+    return c_rpn(t[2]) + c_rpn(t[3]) + [t[1]]
+
+
+def c_sass(t):
+    if t[0] == "N":
+        return num(t[1], t[2])
+    a, b = c_sass(t[2]), c_sass(t[3])
+    return {"mul": f"({a} * {b})", "div": f"math.div({a}, {b})", "add": f"({a} + {b})", "sub": f"({a} - {b})",
+            "rem": f"({a} % {b})", "min": f"math.min({a}, {b})", "max": f"math.max({a}, {b})"}[t[1]]
+
+
+def c_final(fin, ts):
+    if fin == "print":
+        return c_sass(ts[0])
+    if fin == "inspect":
+        return f"meta.inspect({c_sass(ts[0])})"
+    if fin == "unit":
+        return f"math.unit({c_sass(ts[0])})"
+    a, b = c_sass(ts[0]), c_sass(ts[1])
+    return {"lt": f"({a} < {b})", "eq": f"({a} == {b})", "compatible": f"math.compatible({a}, {b})"}[fin]
+
+
+def c_ops(t, acc=None):
+    acc = [] if acc is None else acc
+    if t[0] == "B":
+        acc.append(t[1])
+        c_ops(t[2], acc)
+        c_ops(t[3], acc)
+    return acc
+
+
+POOL_UNITS = ["px", "in", "cm", "mm", "pt", "s", "ms", "deg", "turn", "rad", "Hz", "kHz", "dppx", "dpi", "em", "%", "?0", "-", "-"]
+POOL_LITS = ["1", "2", "3", "7.5", "0.5", "-2", "96", "2.54", "1000", "0.1"]
+
+
+def compound_cases(rng, tier, conv_pairs):
+    cases = []
+    N = lambda x, u: ("N", x, u)
+    B = lambda o, a, b: ("B", o, a, b)
+    for (u, v) in conv_pairs:
+        x, y, z = rng.choice(POOL_LITS), rng.choice(POOL_LITS), rng.choice(POOL_LITS)
+        shapes = [B("mul", B("div", N("1", "-"), N(y, v)), N(x, u)),          # (1/v) * u : right numerator vs left denominator
+                  B("mul", N(x, u), B("div", N("1", "-"), N(y, v))),          # u * (1/v)
+                  B("div", B("mul", N(x, u), N(z, "em")), N(y, v)),           # (u*em)/v
+                  B("div", N(x, u), B("mul", N(y, v), N(z, "em"))),           # u/(v*em)
+                  B("div", B("div", N(x, u), N(z, "em")), N(y, v)),           # (u/em)/v
+                  B("div", B("mul", N(x, u), N(y, v)), N(z, u)),              # (u*v)/u
+                  B("mul", B("div", N(x, "em"), N(y, v)), B("div", N(z, u), N("2", "s")))]   # (em/v)*(u/s)
+        for t in shapes:
+            cases.append(("inspect", [t]))
+            cases.append(("unit", [t]))
+    n_rand = 3000 if tier == "quick" else 30000
+
+    def tree(depth):
+        if depth == 0 or rng.random() < 0.25:
+            return N(rng.choice(POOL_LITS), rng.choice(POOL_UNITS))
+        return B(rng.choice(["mul", "div", "mul", "div", "mul", "div", "add", "sub"]), tree(depth - 1), tree(depth - 1))
+
+    for _ in range(n_rand):
+        fin = rng.choice(["inspect", "inspect", "inspect", "unit", "print", "lt", "eq", "compatible"])
+        if fin in ("lt", "eq", "compatible"):
+            a = tree(rng.choice([1, 1, 2]))
+            b = a if rng.random() < 0.2 else tree(rng.choice([1, 1, 2]))
+            cases.append((fin, [a, b]))
+        else:
+            cases.append((fin, [tree(rng.choice([1, 2, 2]))]))
+    return cases
+
+
+def evaluate_compound(ck, pool, cases, disagreements):
+    rp = [sum((c_rpn(t) for t in ts), []) + [fin] for fin, ts in cases]
+    model = driver([f"units expr e {' '.join(r)}" for r in rp])
+    keep = [i for i, m in enumerate(model) if m.startswith("ok ") or m.startswith("err ")]
+    ck.cov["unsupported_dropped"] += len(cases) - len(keep)
+    srcs = {i: c_final(cases[i][0], cases[i][1]) for i in keep}
+    obs = {}
+    ok_idx = [i for i in keep if model[i].startswith("ok ")]
+    jobs, meta = [], []
+    for off in range(0, len(ok_idx), 300):
+        chunk = ok_idx[off:off + 300]
+        jobs.append(compile_job(source([(i, srcs[i]) for i in chunk]), syntax="scss"))
+        meta.append(chunk)
+    for i in keep:
+        if model[i].startswith("err "):
+            jobs.append(compile_job(source([(i, srcs[i])]), syntax="scss"))
+            meta.append([i])
+    retry = []
+    for chunk, ans in zip(meta, pool.map(jobs, timeout=60)):
+        if ans.get("status") == "ok":
+            found = {int(m.group(1)): m.group(2) for m in RULE.finditer(ans.get("css") or "")}
+            for i in chunk:
+                obs[i] = ("ok " + found[i]) if i in found else "status missing-rule"
+        elif len(chunk) == 1:
+            obs[chunk[0]] = err_class(ans.get("err", {}).get("message")) if ans.get("status") == "err" else \
+                f"status {ans.get('status')} {ans.get('panic') or ''}"[:200]
+        else:
+            retry += chunk
+    if retry:
+        for i, ans in zip(retry, pool.map([compile_job(source([(i, srcs[i])]), syntax="scss") for i in retry], timeout=20)):
+            if ans.get("status") == "ok":
+                m = RULE.search(ans.get("css") or "")
+                obs[i] = ("ok " + m.group(2)) if m else "status missing-rule"
+            elif ans.get("status") == "err":
+                obs[i] = err_class(ans.get("err", {}).get("message"))
+            else:
+                obs[i] = f"status {ans.get('status')} {ans.get('panic') or ''}"[:200]
+    q_idx = [i for i in keep if cases[i][0] == "inspect" and obs[i].startswith("ok ")
+             and set(c_ops(cases[i][1][0])) <= {"mul", "div"} and c_ops(cases[i][1][0])]
+    q_out = dict(zip(q_idx, driver([f"units qcheck {hexs(obs[i][3:])} {' '.join(rp[i])}" for i in q_idx]))) if q_idx else {}
+    failing = []
+    for i in keep:
+        fin, ts = cases[i]
+        mt = ("ok " + unhex(model[i][3:])) if model[i].startswith("ok ") else model[i]
+        ck.count(("c08-compound", rp[i]), True)
+        ck.hist("compound:" + fin)
+        ck.hist("compound-impl:" + (obs[i].split(" ")[0] if obs[i].startswith("ok ") else obs[i][:20]))
+        if i % 997 == 0:
+            ck.sample({"source": f"v: {srcs[i]}", "impl": obs[i], "model": mt})
+        if obs[i] != mt:
+            ck.cov["model_disagreements"] += 1
+            if len(disagreements) < 5:
+                disagreements.append({"source": f"v: {srcs[i]}", "model_observation": mt, "impl_observation": obs[i]})
+        fail = None
+        if obs[i].startswith("status "):
+            fail = "compilation did not finish normally: " + obs[i]
+        elif i in q_out:
+            ck.hist("compound-qcheck:" + q_out[i])
+            if q_out[i] == "ok 0":
+                fail = "product/quotient does not denote the quantity given by the CSS ratios (units must multiply/cancel)"
+        if fail:
+            failing.append({"source": HEAD + f"x{{v: {srcs[i]}}}", "style": "e", "rpn": rp[i], "impl_observation": obs[i],
+                            "model_observation": mt, "expected_by_property": fail, "tags": []})
+    return failing
+
+
 def run(tier, seed):
     ck = Check("C08", tier, seed)
     ck.cov["rule"] = ("EXHAUSTIVE: every ordered pair over the 34 known units + one unknown unit + unitless (36x36) and two "
                       "different unknown units, x 14 observations (+ - < == % math.min math.max math.div * "
                       "inspect(div) inspect(*) math.compatible math.unit(*) math.unit(div)) x 3 magnitude pairs (thorough: 7) x both styles; "
+                      "plus compound units: every convertible pair of different known units in 7 product/quotient shapes (numerator-vs-"
+                      "denominator cancellation in both operand positions) and random product/quotient/sum trees of up to 4 leaves, "
+                      "observed through inspect / math.unit / print / < / == / math.compatible; "
                       "cases whose outcome is an error are compiled once (first magnitude, expanded: the error is decided "
                       "before any arithmetic). Distinct by (op, operands, style); non-trivial when the two units are different "
                       "and both present.")
@@ -226,6 +373,9 @@ def run(tier, seed):
         if fail:
             failing.append({"source": HEAD + f"x{{v: {src}}}", "style": st, "case": list(c), "impl_observation": obs[i],
                             "model_observation": model_txt[i], "expected_by_property": fail, "tags": []})
+    conv_pairs = [(u, v) for (u, v) in pairs if u != v and spec_cmp[(u, v)] and u not in ("-",) and v not in ("-",)
+                  and not u.startswith("?") and not v.startswith("?")]
+    failing += evaluate_compound(ck, pool, compound_cases(ck.rng, tier, conv_pairs), disagreements)
     failing.sort(key=lambda f: len(f["source"]))
     reported = 0
     for f in failing:
@@ -251,6 +401,9 @@ def replay(path):
     if r.get("case"):
         c = r["case"]
         m = driver([f"units op {c[5]} {c[0]} {c[1]} {c[2]} {c[3]} {c[4]}"])[0]
+        print("model :", ("ok " + unhex(m[3:])) if m.startswith("ok ") else m)
+    if r.get("rpn"):
+        m = driver([f"units expr e {' '.join(r['rpn'])}"])[0]
         print("model :", ("ok " + unhex(m[3:])) if m.startswith("ok ") else m)
     print("recorded:", r.get("impl_observation"), "|", r.get("expected_by_property"))
     return 0
